@@ -784,6 +784,14 @@ pub fn finish(agg: &Agg, wall_s: f64, rule: &str, assumptions: Vec<String>) -> i
             !k.starts_with('F') && !k.starts_with("probe.") && !k.starts_with("op.")
         })
         .collect();
+    // entry point x principal matrix (C06 / C07): attempts per cell, from the F7 counters
+    let mut auth_matrix: BTreeMap<String, BTreeMap<String, u64>> = BTreeMap::new();
+    for (k, v) in agg.counters.iter().filter(|(k, _)| k.starts_with("F7.")) {
+        let parts: Vec<&str> = k.splitn(3, '.').collect();
+        if parts.len() == 3 {
+            *auth_matrix.entry(parts[1].to_string()).or_default().entry(parts[2].to_string()).or_insert(0) += v;
+        }
+    }
     let runs_per_hour = if wall_s > 0.0 {
         (agg.runs as f64 / wall_s * 3600.0) as u64
     } else {
@@ -807,6 +815,7 @@ pub fn finish(agg: &Agg, wall_s: f64, rule: &str, assumptions: Vec<String>) -> i
             "simulated_ledgers": agg.sim_ledgers,
             "fault_free_runs": agg.faultfree_runs,
             "faults_fired": faults,
+            "auth_matrix_attempts_by_wrong_principal": auth_matrix,
             "probes": probes,
             "outcomes": outcomes,
             "counters": other,
